@@ -74,6 +74,13 @@ static int cmp_key(void const *ctx, void const *r)
 {
     return cmp_shape(*(int const *)ctx, ((hnode const *)r)->key);
 }
+/* the lookup key carried IN the context pointer ((void *)(uintptr_t)key): the header documents ctx only as "specified content" handed to cmp(ctx, node), so it is
+   opaque to the library - key 0 is then the null pointer (seeded change C02-K: a_rbt_search returning early for a null ctx "so that the comparator never
+   sees a null pointer") */
+static int cmp_key_by_value(void const *ctx, void const *r)
+{
+    return cmp_shape((int)(uintptr_t)ctx, ((hnode const *)r)->key);
+}
 
 /* node layout: packed parent/meta word (A_SIZE_POINTER large enough) or separate members (-DA_SIZE_POINTER=1 build) */
 #ifdef VF_TREE_RBT
@@ -628,6 +635,13 @@ static void do_search(troot *root, int key)
     VF_COUNT("search-agrees-with-model");
     if (has && (!h || !is_live(&h->n) || h->key != key)) { vf_viol(TN "/search/present-key-not-found", "key %d", key); }
     if (!has && h) { vf_viol(TN "/search/absent-key-found", "key %d -> node with key %d", key, is_live(&h->n) ? h->key : -1); }
+    if (key >= 0)
+    {
+        hnode *v = (hnode *)T_(search)(root, (void const *)(uintptr_t)(unsigned)key, cmp_key_by_value);
+        VF_COUNT("search-with-the-key-carried-in-the-context-pointer");
+        if (key == 0) { VF_COUNT("search-with-a-null-context-pointer"); }
+        if (v != h) { vf_viol(TN "/search/opaque-context-pointer", "key %d carried in the context pointer (%s): search returns %s, with a pointer to the key it returns %s", key, key ? "non-null" : "NULL", v ? "a node" : "null", h ? "a node" : "null"); }
+    }
 }
 
 /* ============================================================ iterator mode */
